@@ -29,6 +29,7 @@ package lfshttp
 //@   props C10
 //@   requires @inv req != nil && req.URL != nil && req.Header != nil
 //@   requires @inv forall_v(k, has(req.Header, k), has(req.Header, k) ==> str_canon(k) == k)
+//@   requires len(via) <= 2
 //@   decreases 3 - len(via)
 
 //@ func (*Client).DoWithRedirect
